@@ -199,7 +199,10 @@ def array_setitem(obj, idx, val):
         elif isinstance(val, (list, tuple)):
             val = to_obj(array(val))
         else:
-            val = P(val)
+            try:
+                val = P(val)
+            except TypeError:
+                pass  # arbitrary python object stored in an object array (blocks of sparse matrices ...)
         obj[idx] = val
         return
     # native int / bool storage
@@ -288,6 +291,10 @@ def _shape(s):
 
 def _filled(shape, val, kind):
     shape = _shape(shape)
+    if kind == "object":
+        out = np.empty(shape, dtype=object)
+        out[...] = val
+        return out
     if kind == "int":
         return np.full(shape, int(P(val)), dtype=int)
     if kind == "bool":
@@ -330,8 +337,18 @@ def _like_kind(a, dtype):
     return {"O": "float", "i": "int", "u": "int", "b": "bool"}[a.dtype.kind]
 
 
+def _np_shape(a):
+    from .interp import Instance
+
+    if isinstance(a, (list, tuple)) and a and isinstance(a[0], Instance):
+        return (len(a),)
+    return np.shape(a)
+
+
 def zeros_like(a, dtype=None, **kw):
-    return _filled(np.shape(a), 0, _like_kind(a, dtype))
+    if _kind_of(dtype) is not None and isinstance(a, (list, tuple)):
+        return _filled(_np_shape(a), 0, _kind_of(dtype))
+    return _filled(_np_shape(a), 0, _like_kind(a, dtype))
 
 
 def ones_like(a, dtype=None, **kw):
@@ -1659,10 +1676,17 @@ def _sp_dense(b):
         return b.dense
     if b is None:
         return None
+    if isinstance(b, (int, Fraction, Poly)):
+        # scipy turns a scalar block into a 1x1 matrix
+        r = np.empty((1, 1), dtype=object)
+        r[0, 0] = P(b)
+        return r
     return to_obj(asarray(b))
 
 
 def sp_bmat(blocks, format=None, dtype=None):
+    if isinstance(blocks, np.ndarray):
+        blocks = [[blocks[i, j] for j in range(blocks.shape[1])] for i in range(blocks.shape[0])]
     rows = [[_sp_dense(b) for b in row] for row in blocks]
     nr, nc = len(rows), len(rows[0])
     heights = [None] * nr
